@@ -215,8 +215,9 @@ def run(module, cfg=None, scratch=None, workers=16, timeout=900, env=None, deadl
     if scratch is None:
         raise TLCFailure("scratch dir required")
     cfg = cfg or module
-    meta = os.path.join(scratch, "tlc_%s_%s_%d" % (module, cfg, int(time.time() * 1000) % 100000000))
-    os.makedirs(meta, exist_ok=True)
+    import tempfile
+    os.makedirs(scratch, exist_ok=True)
+    meta = tempfile.mkdtemp(prefix="tlc_%s_%s_" % (module, cfg), dir=scratch)      # unique even for parallel chunks
     cmd = ["java", "-XX:+UseParallelGC", "-Xmx" + heap, "-cp", JAR, "tlc2.TLC",
            "-config", cfg + ".cfg", "-workers", str(workers), "-metadir", meta, "-noGenerateSpecTE"]
     if not deadlock_check:
